@@ -28,6 +28,7 @@ func Harness_C13_attached() {
 		"urn:not-a-signature-method",
 	}
 	sp.SignatureMethod = methods[verifChoose("method", len(methods))]
+	verifAuthnOptions(sp)
 	var drawn []byte
 	calls := 0
 	RandReader = verifRandReader{&drawn, &calls}
@@ -133,6 +134,7 @@ func Harness_C13_wire() {
 	sp.Key = verifTestSigner(kind, 0)
 	sp.Certificate = verifTestCert(kind, 0)
 	sp.SignatureMethod = []string{"http://www.w3.org/2001/04/xmldsig-more#rsa-sha256", "http://www.w3.org/2001/04/xmldsig-more#ecdsa-sha256"}[kind]
+	verifAuthnOptions(sp)
 	d := &sp.IDPMetadata.IDPSSODescriptors[0]
 	d.SingleSignOnServices = []Endpoint{{Binding: HTTPPostBinding, Location: "https://idp.example.com/sso"}}
 	d.SingleLogoutServices = []Endpoint{
@@ -218,4 +220,16 @@ func verifFormMessage(body []byte, name string) []byte {
 		return nil
 	}
 	return raw
+}
+
+
+// verifAuthnOptions: the optional AuthnRequest contents an SP may configure (they are part of the signed element).
+func verifAuthnOptions(sp *ServiceProvider) {
+	switch verifChoose("authn.options", 3) {
+	case 1:
+		yes := true
+		sp.ForceAuthn = &yes
+	case 2:
+		sp.RequestedAuthnContext = &RequestedAuthnContext{Comparison: "exact", AuthnContextClassRef: "urn:oasis:names:tc:SAML:2.0:ac:classes:PasswordProtectedTransport"}
+	}
 }
